@@ -85,6 +85,11 @@ def r1f_optional(repo, rep, closure):
           what, src_expr, name = site
           n_sites += 1
           ok, why = discharged_in_diag(f, ctx, node, sub, src_expr, name, xonly, sn)
+          if not ok and repo.pinned_names is not None and f.qualname not in repo.pinned_names:
+            # a helper that is not an anchor of the pinned tree (a compute method handed to a memoiser, a phase of a getter):
+            # the guard may sit in whoever calls it
+            rep.undecided('R1f/optional-deref', '%s: %s of self.%s' % (f.name, what, name), 'the use sits in the helper %s; a guard in its callers is not followed' % f.name, f.loc(sub))
+            continue
           if not ok:
             und = undecided_in_diag(f, ctx, node, name, xonly, sn, opt)
             if und:
@@ -582,9 +587,14 @@ def r1d_greedy_keys(repo, rep):
     while par is not None:
       if isinstance(par, ast.For) and norm(par.target) == key:
         loop = par
+      if isinstance(par, ast.For) and isinstance(par.target, (ast.Tuple, ast.List)) and par.target.elts and norm(par.target.elts[0]) == key \
+          and isinstance(par.iter, ast.Call) and isinstance(par.iter.func, ast.Attribute) and par.iter.func.attr == 'items':
+        loop = par          # for key, value in T.items(): the keys of T
       par = getattr(par, '_parent', None)
     if loop is not None:
       it = norm(loop.iter)
+      if it.endswith('.items()'):
+        it = it[:-len('.items()')]
       good = it in T or it in ['%s.keys()' % x for x in T] or it in ['list(%s)' % x for x in T] or it in ['sorted(%s)' % x for x in T]
       rep.check(good, 'R1d/dict-keys', 'final read %s[%s] iterates the keys of the treatment table (a subset of the control table at loop exit)' % (D, key), f.qualname,
                 'for %s in %s: %s[%s]' % (key, it, D, key), 'the final loop iterates `%s` and reads %s[%s]: that key need not exist' % (it, D, key), f.loc(sub))
@@ -594,8 +604,10 @@ def r1d_greedy_keys(repo, rep):
       for n in g.nodes:
         if n.kind == 'stmt' and isinstance(n.ast, ast.Assign) and norm(n.ast.targets[0]) == k and not inside(n):
           init_key = norm(n.ast.value)
-      rep.check(key == init_key, 'R1d/dict-keys', 'read %s[%s] after the loop uses the initial key' % (D, key), f.qualname, 'read %s[%s]' % (D, key),
-                '%s[%s] is read after the loop but %s is not the initial size key' % (D, key, key), f.loc(sub), nontrivial=False)
+      key_closed = re.fullmatch(r'-?\d+', key) is not None or (init_key is not None and re.fullmatch(r'%s [+-] \d+' % re.escape(init_key), key) is not None)
+      rep.check3(True if key == init_key else (False if key_closed else None), 'R1d/dict-keys', 'read %s[%s] after the loop uses the initial key' % (D, key), f.qualname, 'read %s[%s]' % (D, key),
+                 '%s[%s] is read after the loop but %s is not the initial size key' % (D, key, key), f.loc(sub), nontrivial=False,
+                 why_open='the key `%s` of the read after the loop is neither the initial size nor a loop variable over the keys of the treatment table' % key)
   pops = []
   for n in g.nodes:
     if not inside(n) and n.kind == 'stmt':
